@@ -469,6 +469,14 @@ class ProjectData(sc.prettyobj):
 
         """
 
+        try:
+            return self._validate(framework)
+        except AssertionError as e:
+            raise InvalidDatabook(str(e)) from e  # The checks below are written as assertions, but their failure means the databook content is invalid
+
+    def _validate(self, framework) -> bool:
+        # Perform the checks described in `ProjectData.validate()`
+
         # Make sure that all of the quantities the Framework says we should read in have been read in, and that
         # those quantities all have some data values associated with them
         for pop in self.pops.values():
